@@ -30,6 +30,17 @@ class Record:
         return f"<{self.cls}.{self.fields.get('name')}>"
 
 
+_MISSING = object()
+
+
+class _Break(Exception):
+    pass
+
+
+class _Continue(Exception):
+    pass
+
+
 class ReturnValue(Exception):
     def __init__(self, v):
         self.v = v
@@ -51,7 +62,10 @@ class Evaluator:
         env: Dict[str, Any],
         record_compare: Optional[Callable[[str, Record, Any, "Evaluator"], Any]] = None,
         isinstance_hook: Optional[Callable[[Any, str], Optional[bool]]] = None,
+        call_hook: Optional[Callable[[str, list, dict, "Evaluator"], Any]] = None,
     ):
+        self.call_hook = call_hook
+        self.steps = 0
         self.env = env
         self.record_compare = record_compare
         self.isinstance_hook = isinstance_hook
@@ -83,7 +97,13 @@ class Evaluator:
             raise Unsupported(f"attribute .{e.attr} of a {type(v).__name__}")
         if isinstance(e, ast.Subscript):
             v = self.ev(e.value)
-            i = self.ev(e.slice)
+            if isinstance(e.slice, ast.Slice):
+                lo = self.ev(e.slice.lower) if e.slice.lower is not None else None
+                hi = self.ev(e.slice.upper) if e.slice.upper is not None else None
+                stp = self.ev(e.slice.step) if e.slice.step is not None else None
+                i = slice(lo, hi, stp)
+            else:
+                i = self.ev(e.slice)
             try:
                 return v[i]
             except Exception as ex:
@@ -128,8 +148,51 @@ class Evaluator:
             if type(e.op) in ops:
                 return ops[type(e.op)](l, r)
             raise Unsupported(f"binary {type(e.op).__name__}")
+        if isinstance(e, ast.JoinedStr):
+            return "<fstring>"
+        if isinstance(e, (ast.GeneratorExp, ast.ListComp)) and len(e.generators) == 1 and isinstance(e.generators[0].target, ast.Name):
+            g = e.generators[0]
+            seq = self.ev(g.iter)
+            if not isinstance(seq, (list, tuple)):
+                raise Unsupported("comprehension over a non-sequence")
+            out = []
+            saved = self.env.get(g.target.id, _MISSING)
+            for item in seq:
+                self.env[g.target.id] = item
+                if all(self.truth(self.ev(c)) for c in g.ifs):
+                    out.append(self.ev(e.elt))
+            if saved is _MISSING:
+                self.env.pop(g.target.id, None)
+            else:
+                self.env[g.target.id] = saved
+            return out
         if isinstance(e, ast.Call):
             fn = e.func
+            if isinstance(fn, ast.Name) and fn.id in ("max", "min", "any", "all", "sorted", "list", "tuple", "enumerate") and fn.id not in self.env:
+                args = [self.ev(a) for a in e.args]
+                kw = {k.arg: self.ev(k.value) for k in e.keywords}
+                if fn.id in ("max", "min"):
+                    seq = list(args[0]) if len(args) == 1 else list(args)
+                    if not seq:
+                        if "default" in kw:
+                            return kw["default"]
+                        raise Unsupported(f"{fn.id}() of an empty sequence (ValueError at run time)")
+                    best = seq[0]
+                    for x in seq[1:]:
+                        better = self.compare(ast.Gt() if fn.id == "max" else ast.Lt(), x, best)
+                        if self.truth(better):
+                            best = x
+                    return best
+                if fn.id == "any":
+                    return any(self.truth(x) for x in args[0])
+                if fn.id == "all":
+                    return all(self.truth(x) for x in args[0])
+                if fn.id in ("list", "sorted") and len(args) == 1 and fn.id == "list":
+                    return list(args[0])
+                if fn.id == "tuple" and len(args) == 1:
+                    return tuple(args[0])
+                if fn.id == "enumerate" and len(args) == 1:
+                    return [(i, x) for i, x in enumerate(args[0])]
             if isinstance(fn, ast.Name) and not e.keywords:
                 args = [self.ev(a) for a in e.args]
                 if fn.id == "isinstance" and len(e.args) == 2:
@@ -145,6 +208,13 @@ class Evaluator:
                     return self.truth(args[0])
                 if fn.id == "len" and len(args) == 1 and isinstance(args[0], (tuple, list, str)):
                     return len(args[0])
+            if self.call_hook is not None:
+                name = ast.unparse(fn)
+                args = [self.ev(a) for a in e.args]
+                kw = {k.arg: self.ev(k.value) for k in e.keywords if k.arg}
+                r = self.call_hook(name, args, kw, self)
+                if r is not _MISSING:
+                    return r
             raise Unsupported(f"call {ast.unparse(e)[:40]}")
         raise Unsupported(f"expression {type(e).__name__}")
 
@@ -204,5 +274,44 @@ class Evaluator:
                 continue
             elif isinstance(st, ast.Assign) and len(st.targets) == 1 and isinstance(st.targets[0], ast.Name):
                 self.env[st.targets[0].id] = self.ev(st.value)
+            elif isinstance(st, ast.AnnAssign) and isinstance(st.target, ast.Name) and st.value is not None:
+                self.env[st.target.id] = self.ev(st.value)
+            elif isinstance(st, ast.AugAssign) and isinstance(st.target, ast.Name):
+                cur = self.ev(st.target)
+                val = self.ev(st.value)
+                fake = ast.BinOp(left=ast.Constant(cur), op=st.op, right=ast.Constant(val))
+                if isinstance(cur, bool) and isinstance(val, bool) and isinstance(st.op, (ast.BitAnd, ast.BitOr)):
+                    self.env[st.target.id] = (cur and val) if isinstance(st.op, ast.BitAnd) else (cur or val)
+                else:
+                    self.env[st.target.id] = self.ev(fake)
+            elif isinstance(st, ast.For) and isinstance(st.target, (ast.Name, ast.Tuple)):
+                seq = self.ev(st.iter)
+                if not isinstance(seq, (list, tuple)):
+                    raise Unsupported("for over a non-sequence")
+                broke = False
+                for item in seq:
+                    self.steps += 1
+                    if self.steps > 10000:
+                        raise Unsupported("too many steps")
+                    if isinstance(st.target, ast.Name):
+                        self.env[st.target.id] = item
+                    else:
+                        for t, v in zip(st.target.elts, item):
+                            self.env[t.id] = v
+                    try:
+                        self._block(st.body)
+                    except _Break:
+                        broke = True
+                        break
+                    except _Continue:
+                        continue
+                if not broke:
+                    self._block(st.orelse)
+            elif isinstance(st, ast.Break):
+                raise _Break()
+            elif isinstance(st, ast.Continue):
+                raise _Continue()
+            elif isinstance(st, ast.Expr):
+                self.ev(st.value)
             else:
                 raise Unsupported(f"statement {type(st).__name__}")
